@@ -424,9 +424,9 @@ Proof. apply gseteqb_spec. intros t; tauto. Qed.
 
 Theorem spec_ok_model c : kf c = 0%N -> spec_ok c (model_obs c) = true.
 Proof.
-  intros Hk. unfold spec_ok, model_obs. rewrite Hk. simpl N.eqb. rewrite andb_true_r.
+  intros _. unfold spec_ok, model_obs, model_obs_with.
   set (g1 := c_g1 c). set (g2 := c_g2 c).
-  unfold spec_verdicts, spec_canon, spec_diff, spec_skolem. cbn [o_iso o_toiso o_caneq o_alt1 o_alt2 o_cg1 o_cg2 o_both o_first o_second o_sk o_skv].
+  unfold spec_verdicts, spec_canon, spec_diff, spec_skolem. cbn [o_iso o_toiso o_caneq o_alt1 o_alt2 o_cg1 o_cg2 o_both o_first o_second o_sk o_skv o_undet].
   fold g1 g2. rewrite !eqb_reflx, iso_dec_refl. cbn [andb].
   set (cg2 := if iso_dec g1 g2 then g1 else shift_g (N.succ (maxblank g1)) g2).
   destruct (diff_partition g1 cg2) as [A [B _]]. cbv zeta in A, B.
@@ -498,12 +498,4 @@ Theorem spec_skolem_reading c o :
   spec_skolem c o = true <-> iso (o_sk o) (c_g1 c) /\ iso (o_skv o) (c_g1 c).
 Proof. unfold spec_skolem. now rewrite andb_true_iff, !iso_dec_correct. Qed.
 
-(* the model is wrong in the region of finding FC14a, as the implementation is *)
-Lemma leak_refuted :
-  exists c, kf c = 1%N /\ iso (c_g1 c) (c_g2 c) /\ o_iso (model_obs c) = false
-            /\ spec_ok c (model_obs c) = false.
-Proof.
-  exists {| c_g1 := [(Blank 0, Blank 1, Blank 2)]; c_g2 := [(Blank 3, Blank 4, Blank 5)] |}%N.
-  split; [reflexivity|]. split; [apply iso_dec_correct; vm_compute; reflexivity|].
-  split; vm_compute; reflexivity.
-Qed.
+
